@@ -231,6 +231,9 @@ var nonCanonicalTexts = []string{
 	"2006-01-02T15:04:05Z", "2006-01-02T15:04:05+07:00", "2006-01-02T15:04:05-23:59", "2006-01-02T15:04:05+23:59", "2006-01-02T15:04:05.999999999Z", "2006-01-02T15:04:05.5+01:00",
 	"2006-01-02T15:04:05.1234567891Z", "2006-01-02t15:04:05Z", "2006-01-02T15:04:05z", "2006-01-02T5:04:05Z", "2006-01-02T15:04:05", "2006-01-02T15:04:05+24:00", "2006-01-02T15:04:05+07:60",
 	"2006-01-02T24:00:00Z", "2006-01-02T23:59:60Z", "2006-01-02T15:04:05,5Z", "2006-01-02T15:04:05+0700", "2006-01-02T15:04:05+07", "0001-01-01T00:00:00Z", "9999-12-31T23:59:59Z",
+	// wall clocks inside the hour repeated at the end of DST, with both offsets and a fraction (Paris, New York, St John's)
+	"2021-10-31T02:30:00.5+02:00", "2021-10-31T02:30:00.5+01:00", "2021-10-31T02:30:00+02:00", "2021-11-07T01:30:00.25-04:00", "2021-11-07T01:30:00.25-05:00",
+	"2021-11-07T01:30:00.5-02:30", "2021-11-07T01:30:00.5-03:30", "2021-03-28T02:30:00.5+01:00", "2021-03-14T02:30:00.5-05:00",
 	"0000-01-01T00:00:00Z", "2006-02-30T00:00:00Z", "2020-02-29T12:00:00+05:30", "1969-12-31T23:59:59.5Z", "1969-12-31T23:59:59.5-00:30", "2006-01-02T15:04:05+00:00", "2006-01-02T15:04:05-00:00",
 	"AQ==", "AAE=", "AAEC", "AAECAw==", "QUJD", "AQ", "A===", "AQ==\n", "A\nQ==", "AR==", "!!!!", "AAAAAAAAAAA=", "////", "++++",
 	"hello", "héllo", "\x00", "\xff\xfe", "a\"b\\c", " ", "😀",
